@@ -407,7 +407,7 @@ Proof.
   destruct (Nat.ltb t (ntasks s)) eqn:Lt; [|discriminate]. apply Nat.ltb_lt in Lt.
   destruct (alive (tasks s t)) eqn:Al; [|discriminate].
   destruct (finished (tasks s t)) eqn:Fi; [|discriminate].
-  cbn [andb] in St. inversion St; subst; clear St.
+  inversion St; subst; clear St.
   assert (Cu : cur (tasks s t) = []).
   { unfold finished in Fi. destruct (cur (tasks s t)); [reflexivity|discriminate]. }
   assert (NW : waiting (tasks s t) = false).
@@ -423,7 +423,8 @@ Proof.
   - intros u Hu W. destruct (Nat.eq_dec u t) as [->|Ne].
     + rewrite upd_same in W. discriminate.
     + rewrite upd_other in W by assumption. apply (i_parked_sw s I); assumption.
-  - apply (i_rx_parked s I).
+  - intros RX A B. rewrite RX in *. apply orb_false_iff in A. destruct A as [A1 A2].
+    destruct (i_rx_parked s I RX A1 B) as [_ Rw]. congruence.
   - intros c Ec. destruct (i_cap s I c Ec) as [A [B K]]. repeat split; try assumption.
     intros H. specialize (K H).
     pose proof (count_upd eager (ntasks s) (tasks s) t (mkTask [] [] false (woken (tasks s t))) Lt) as CU.
@@ -541,68 +542,3 @@ Proof.
   - exfalso. apply NE. apply (i_closed s I). rewrite RX. discriminate.
 Qed.
 
-(* ------------------------------------------------------------------ the receiver's side *)
-
-(* while the receiver is parked some sender is still alive -- as long as no sender used
-   close_this_sender, which drops the weak count without waking the receiver *)
-Definition Inv2 (s : state) : Prop :=
-  rx s = RxOpen -> rx_woken s = false -> rx_done s = false ->
-  exists t, t < ntasks s /\ alive (tasks s t) = true.
-
-Lemma count_alive_pos : forall n f, count_alive n f <> 0 -> exists t, t < n /\ alive (f t) = true.
-Proof.
-  induction n as [|n IH]; intros f H; cbn in H; [contradiction|].
-  destruct (alive (f n)) eqn:A.
-  - exists n. split; [lia|exact A].
-  - cbn in H. destruct (IH f H) as [t [Lt At]]. exists t. split; [lia|exact At].
-Qed.
-
-Lemma inv2_step : forall s l s' o, Inv s -> Inv2 s -> is_close_sender l = false ->
-  step strict s l = Some (s', o) -> Inv2 s'.
-Proof.
-  intros s l s' o I I2 NC St. destruct l; try discriminate NC; cbn [step] in St.
-  - (* Poll: the polled task stays alive *)
-    destruct (Nat.ltb t (ntasks s)) eqn:Lt; [|discriminate]. apply Nat.ltb_lt in Lt.
-    destruct (_ && _) in St; [|discriminate].
-    destruct (poll_sends _ _ _ _ _) as [[[rem os] ws] ch].
-    inversion St; subst; clear St. unfold Inv2. cbn. intros _ _ _.
-    exists t. split; [exact Lt|]. rewrite upd_same. reflexivity.
-  - destruct (_ && _) in St; [|discriminate].
-    destruct (buf s) as [|v b'] eqn:Bf.
-    + destruct (Nat.eqb _ 0) eqn:W; inversion St; subst; clear St; unfold Inv2; cbn.
-      * intros _ _ H. discriminate.
-      * intros RX _ _. rewrite RX in W. apply Nat.eqb_neq in W. apply count_alive_pos. exact W.
-    + destruct (sw s); inversion St; subst; clear St; unfold Inv2; cbn; intros _ H; discriminate.
-  - (* DropSender: Drop wakes the parked receiver *)
-    destruct (_ && _) in St; [|discriminate]. inversion St; subst; clear St.
-    unfold Inv2. cbn. intros RX A B. rewrite RX in A. apply orb_false_iff in A. destruct A as [A1 A2].
-    destruct (i_rx_parked s I RX A1 B) as [_ Rw]. congruence.
-  - destruct (rx s); try discriminate. destruct (_ || _) in St; [|discriminate].
-    inversion St; subst. unfold Inv2. cbn. intros H. discriminate.
-  - destruct (rx s); try discriminate; inversion St; subst; unfold Inv2; cbn; intros H; discriminate.
-Qed.
-
-Lemma inv2_reachable : forall c progs tr s,
-  cap_ok c = true -> single_progs progs = true ->
-  reachable strict (init c progs) tr s -> existsb is_close_sender tr = false -> Inv s /\ Inv2 s.
-Proof.
-  intros c progs tr s C S R. induction R as [|tr s l s' o R IH St]; intros NC.
-  - split; [apply inv_init; assumption|]. unfold Inv2. cbn. intros _ H. discriminate.
-  - rewrite existsb_app in NC. apply orb_false_iff in NC. destruct NC as [NC1 NC2].
-    cbn in NC2. rewrite orb_false_r in NC2.
-    destruct (IH NC1) as [I I2]. split; [eapply inv_step; eassumption|eapply inv2_step; eassumption].
-Qed.
-
-(* the receiver is never left parked with something to learn, in executions of the class in
-   which no sender is closed with close_this_sender *)
-Theorem no_rx_strand : forall c progs tr s,
-  cap_ok c = true -> single_progs progs = true ->
-  reachable strict (init c progs) tr s -> existsb is_close_sender tr = false -> ~ RxStranded s.
-Proof.
-  intros c progs tr s C S R NC [NR [RR [RX [RD Learn]]]].
-  destruct (inv2_reachable c progs tr s C S R NC) as [I I2].
-  unfold rx_runnable, rx_alive in RR. rewrite RX, RD in RR. cbn in RR. rewrite andb_true_r in RR.
-  destruct (i_rx_parked s I RX RR RD) as [Bf _].
-  destruct Learn as [NE|Dead]; [apply NE; exact Bf|].
-  destruct (I2 RX RR RD) as [t [Lt A]]. rewrite (Dead t Lt) in A. discriminate.
-Qed.
